@@ -3,8 +3,8 @@
 which forced conditions no property noticed (the checker's blind-spot map)."""
 import json, glob, collections, sys
 noticed = set(); allblind = {}
-for f in sorted(glob.glob('/verif/evidence/C*.json')):
-    d = json.load(open(f)); c = d.get('coverage', {})
+for f in sorted(glob.glob('/verif/evidence/sweep/C*.json')):
+    c = json.load(open(f))
     for n in c.get('sensitivity_noticed_list') or []: noticed.add(n)
     for n in c.get('sensitivity_unnoticed') or []: allblind[n] = 1
 never = sorted(b for b in allblind if b not in noticed)
